@@ -34,9 +34,9 @@
    Where the code differs from a naive reading of the property text (characterised exactly, see the
    harness report): (1) the block is "all when steps since the then step that precedes the most recent
    when step": given steps inside it do not end it (is_block allows HG items in seg), and a then step
-   that follows `then; given` still sees the old block; (2) reproduce re-issues step NAMES only: the
-   Gherkin tables of the reproduced steps are dropped (strip_tables); (3) every repeat/reproduce step
-   adds one more execute() of its own after its nested steps.
+   that follows `then; given` still sees the old block; (2) every repeat/reproduce step adds one
+   more execute() of its own after its nested steps.  (A former corner -- reproduce dropped the Gherkin
+   tables of the reproduced steps -- was a defect, repaired in /repo; the model follows the repaired code.)
 
    Partial / not covered: numeric fields are proved complete for decimal digit strings only (other
    forms -- 2.5, +3, 1e3, 0x10 -- are covered by the matcher correspondence run, not by a theorem);
@@ -605,7 +605,7 @@ Section ModelProofs.
           | AReproduce nm =>
               match find_scenario nm feat with
               | None => None
-              | Some steps => seq_of (plain_act f feat) (map strip_tables (actions_of steps)) i
+              | Some steps => seq_of (plain_act f feat) (actions_of steps) i
               end
           | ARepeat a' n => seq_of (plain_act f feat) (repeat a' n) i
           | ASend n tbl inl_ => Some (i_queue (mkEvent External n (build_params tbl inl_)) i, [])
@@ -639,7 +639,7 @@ Section ModelProofs.
     | AReproduce nm =>
         match find_scenario nm feat with
         | None => Some (c, Failed)
-        | Some steps => run_list (RunAct f feat k) (map strip_tables (actions_of steps)) c
+        | Some steps => run_list (RunAct f feat k) (actions_of steps) c
         end
     | ARepeat a' n => run_list (RunAct f feat k) (repeat a' n) c
     | ASend n tbl inl_ =>
@@ -791,7 +791,7 @@ Section ModelProofs.
       destruct a; cbn [act_body] in *.
       + apply (FIN c (c_interp c) []); auto.
       + destruct (find_scenario scenario feat) as [steps|].
-        * destruct (run_list (RunAct f feat k) (map strip_tables (actions_of steps)) c) as [[c1 s1]|] eqn:R; [|discriminate].
+        * destruct (run_list (RunAct f feat k) (actions_of steps) c) as [[c1 s1]|] eqn:R; [|discriminate].
           destruct (AfterStep k c1) as [c2 ok] eqn:A. destruct ok; [|discriminate]. destruct s1; try discriminate.
           destruct (run_list_plain f feat k (fun a c c' => run_act_plain f feat k a c c') _ c c1 Hi R) as (i1 & m1 & P & U & Z).
           rewrite P. apply (FIN c1 i1 m1); auto.
@@ -823,7 +823,7 @@ Section ModelProofs.
       destruct a; cbn [act_body].
       + apply (FIN c (c_interp c) []); auto.
       + destruct (find_scenario scenario feat) as [steps|]; [|discriminate].
-        destruct (seq_of (plain_act f feat) (map strip_tables (actions_of steps)) (c_interp c)) as [[i1 m1]|] eqn:P; [|discriminate].
+        destruct (seq_of (plain_act f feat) (actions_of steps) (c_interp c)) as [[i1 m1]|] eqn:P; [|discriminate].
         destruct (plain_run_list f feat k (fun a c i' ms => plain_run_act f feat k a c i' ms) _ c i1 m1 Hi P) as [R Z].
         rewrite R. apply (FIN _ i1 m1); auto.
         * apply inv_updl, Hi.
@@ -846,8 +846,8 @@ Section ModelProofs.
      is defined, and then the interpreter is in exactly that state; a given step leaves the monitored
      trace alone, a when step appends all macro steps of its execute() calls (those of its nested steps
      included) to the block.  (2)-(7) the documented effect, kind by kind: what is queued, by how much
-     the clock advances, repeat n = n-fold, reproduce = the given/when steps of the named scenario (tables
-     are not passed on), each followed by execute(), and one more execute() for the step itself. *)
+     the clock advances, repeat n = n-fold, reproduce = the given/when steps of the named scenario with their
+     tables, each followed by execute(), and one more execute() for the step itself. *)
   Theorem C19_given_when :
     (forall fuel feat k a c c', inv c ->
        (RunAct fuel feat k a c = Some (c', Passed) <->
@@ -868,7 +868,7 @@ Section ModelProofs.
        match find_scenario nm feat with
        | None => None
        | Some steps =>
-           match seq_of (plain_act f feat) (map strip_tables (actions_of steps)) i with
+           match seq_of (plain_act f feat) (actions_of steps) i with
            | None => None
            | Some (i1, m1) => match exec i1 with None => None | Some (i2, m2) => Some (i2, m1 ++ m2) end
            end
